@@ -39,6 +39,7 @@ PAYLOADS = [
     "<key>", "<body>", "<newline>", "<indent>", "<condition_kwargs>", "<salt>", "A<key>B", "{key}", "{body}", "$key", "%(key)s", "{{key}}",
     "__KEY__", "@@BODY@@", "${salt}", "<%= key %>", "\\g<1>", "\\1", "$1", "&", "\\0",
     "name='f'", "name='uid'", "f", "uid", "1", "(1, 2)", "Identifier(name='f')", "0", "z",
+    "{uid}", "{uid!r}", "{uid:>30}", "{f}", "{uid.__class__}", "{uid.__init__.__globals__}", "{{x}}", "{{uid}}", "%(uid)s", "%(f)r", "$uid", "${uid}", "#{uid}", "<%= uid %>",
     "$PYAB_PLANTED", "${PYAB_PLANTED}", "%PYAB_PLANTED%", "a $PYAB_PLANTED b", "$HOME", "${HOME}", "$PATH", "~", "~root", "~/x", "$$", "$(id)", "`id`",
     "", " ", "it's", 'say "hi"', "plain", "\\n", "\\t'", "${x}", "`x`", "'+'", "\\'", 'a" + __pyab_sentinel__() + "b',
     # strings that look like data of some other type (versions, dates, addresses, numbers in other notations, patterns, formats)
@@ -170,8 +171,15 @@ def judge(case):
     if res[0] != "ok":
         viol.append("does not compile: %s %s | %s" % (res[1], res[2], text))
     else:
+        declared = [M.lit_value(g["lit"]) for r in M.returns(prog["body"]) for g in r["groups"]]
         for enc in case["inputs"]:
-            sut.call(res[1], M.dec_inputs(enc))
+            env = M.dec_inputs(enc)
+            got = sut.call(res[1], env)
+            # a group literal is data: what comes back is one of the declared labels, character for character (nothing
+            # formats, interpolates or otherwise "applies" it to the call's fields)
+            if got[0] == "group" and not any(sut.same_value(got[1], d) for d in declared):
+                viol.append("evaluation returned %r, which is none of the declared group literals %r | inputs=%r | %s" % (got[1], declared[:6], env, text))
+                break
     if _calls["n"]:
         viol.append("planted sentinel was called %d time(s) while compiling / evaluating | %s" % (_calls["n"], text))
     if viol and case.get("noise"):
